@@ -529,10 +529,47 @@ def _decider_paths(ctx: Ctx, f: FunctionInfo):
     dist_aliases = {a.targets[0].id for a in walk_local(f.node) if isinstance(a, ast.Assign) and len(a.targets) == 1
                     and isinstance(a.targets[0], ast.Name) and isinstance(a.value, ast.Attribute) and a.value.attr == "get_distance_to_terminal"}
 
+    def _is_distance_helper(g: FunctionInfo) -> bool:
+        """a method m(self, ty) that answers get_distance_to_terminal(ty), possibly through a table of its own that it fills with exactly that
+        (self.T[ty] = <grammar>.get_distance_to_terminal(ty); return self.T[ty]) - a memo in front of the grammar's accessor"""
+        ps_ = [q for q in g.params if q != "self"]
+        if len(ps_) != 1 or not isinstance(g.node, ast.FunctionDef):
+            return False
+        key = ps_[0]
+
+        def is_dist_call(x) -> bool:
+            return isinstance(x, ast.Call) and call_name(x) == "get_distance_to_terminal" and len(x.args) == 1 \
+                and isinstance(x.args[0], ast.Name) and x.args[0].id == key
+
+        def is_table_read(x) -> bool:
+            if isinstance(x, ast.Subscript) and is_self_attr(x.value) and isinstance(x.slice, ast.Name) and x.slice.id == key:
+                return True
+            return isinstance(x, ast.Call) and isinstance(x.func, ast.Attribute) and x.func.attr in ("get", "setdefault") and is_self_attr(x.func.value) \
+                and len(x.args) == 2 and isinstance(x.args[0], ast.Name) and x.args[0].id == key and is_dist_call(x.args[1])
+        rets = [r.value for r in walk_local(g.node) if isinstance(r, ast.Return)]
+        if not rets or any(r is None or not (is_dist_call(r) or is_table_read(r)) for r in rets):
+            return False
+        if not any(is_dist_call(x) for x in walk_local(g.node)):
+            return False
+        for a_ in walk_local(g.node):
+            if isinstance(a_, ast.Assign):
+                for t_ in a_.targets:
+                    if isinstance(t_, ast.Subscript) and not (is_self_attr(t_.value) and isinstance(t_.slice, ast.Name) and t_.slice.id == key and is_dist_call(a_.value)):
+                        return False
+                    if not isinstance(t_, ast.Subscript):
+                        return False
+            elif isinstance(a_, (ast.AugAssign, ast.AnnAssign, ast.For, ast.While, ast.Try, ast.With)):
+                return False
+        return True
+
     def call_hook(e_: Env, call: ast.Call):
         nm = call_name(call)
         if nm == "get_distance_to_terminal" or (isinstance(call.func, ast.Name) and call.func.id in dist_aliases):
             return d
+        if is_self_attr(call.func) and f.cls is not None and len(call.args) == 1 and not call.keywords:
+            g_ = ctx.prog.lookup_method(f.cls, call.func.attr)
+            if g_ is not None and _is_distance_helper(g_):
+                return d
         if nm in ("choice", "choice_weighted") and call.args:
             return ChoiceOf(evaluate(e_, call.args[0]), call)
         if nm in ("list", "sorted", "tuple") and len(call.args) == 1:
